@@ -214,6 +214,16 @@ impl HostTimer {
     pub(crate) fn since_epoch(&self) -> Duration {
         self.since_epoch + self.sim_elapsed()
     }
+
+    /// Duration since the epoch at the start of the current tick.
+    ///
+    /// Unlike [`Self::since_epoch`] this does not read the runtime clock, so it
+    /// can be used outside of the host's runtime context, where
+    /// `Instant::elapsed` silently falls back to the wall clock.
+    #[cfg(feature = "unstable-fs")]
+    pub(crate) fn tick_start_since_epoch(&self) -> Duration {
+        self.since_epoch + self.start_offset + self.elapsed
+    }
 }
 
 /// Simulated UDP host software.
